@@ -89,10 +89,10 @@ func deliverToSubscription(
 					t := sql.Table(message.Table)
 					s.Join(t).On(s.C(delivery.MessageColumn), t.C(message.FieldID))
 					s.Where(sql.And(
-						// not necessary? maybe helps with indexes?
-						sql.EQ(t.C(message.TopicColumn), m.TopicID),
 						// ordering is per key: only a delivery of a message with the same
-						// order key can be the predecessor
+						// order key can be the predecessor. the message's topic must not be
+						// constrained: a dead-letter subscription also holds deliveries of
+						// messages forwarded from other topics
 						sql.EQ(t.C(message.FieldOrderKey), *m.OrderKey),
 					))
 				},
